@@ -136,8 +136,16 @@ def c10Dir : Handler := fun c => do
       | .ok ws => listJ winJ ws
       | .error .shape => strJ "error:shape"
     let toks := specW.map fun w => SlicePolicy.tokensRow partialOk retain ref (w.start, w.stop) none
+    -- the model of the worker (`dirChunks`): its windows with the token chunk it writes for each
+    let pol := match policy with
+      | "fixed" => Policy.fixed
+      | "ali" => Policy.ali
+      | _ => Policy.ref
+    let chunks := match dirChunks pol wt vo lobe partialOk retain ⟨T, ali, ref⟩ with
+      | .ok cs => listJ (fun (c : Win × List Tok) => objJ [("win", winJ c.1), ("toks", listJ tokJ c.2)]) cs
+      | .error .shape => strJ "error:shape"
     out := out.push (objJ [("model", model), ("spec", listJ winJ specW),
-      ("tokens", listJ (listJ tokJ) toks)])
+      ("tokens", listJ (listJ tokJ) toks), ("model_chunks", chunks)])
   pure (objJ [("utts", Json.arr out)])
 
 def main : IO Unit := Proto.run [("c10.slice", c10Slice), ("c10.tokens", c10Tokens), ("c10.dir", c10Dir)]
